@@ -1,6 +1,6 @@
 """C09 - tool, base and frame wrappers compose transforms consistently in both directions."""
 from .. import algebra, mir, util
-from ..mir import show, strip
+from ..mir import show, strip, cname
 
 EXPLANATION = ('Decides the structural clauses of C09 from MIR: (R09.1) exhaustive delegation matrix wrapper x trait method; '
                '(R09.2) free-group identity W_inverse(W_forward(X)) = X for the transforms applied around the inner call; '
@@ -175,9 +175,27 @@ def _base_link_poses(ctx, prog):
         return
     bi, t, _ = vv[0]
     arr = t['dest']['local']
+    key = 'tool::Base/link-poses'
+    # form: inner_poses.map(|pose| base * pose)
+    ret = strip(b.return_term())
+    if isinstance(ret, tuple) and ret[0] == 'call' and cname(ret[1]) == 'array::map' and strip(ret[2]) == strip(b.call_term(t, (bi, None))):
+        cb, caps = util.closure_of_term(prog, ret[3])
+        good = False
+        found = None
+        if cb is not None and len(caps) == 1 and util.is_param(strip(caps[0]), 1):
+            rv = cb.return_values()
+            if len(rv) == 1:
+                w = algebra.word(rv[0][0])
+                found = _sw(w)
+                first = w[0][0] if w else None
+                base_ok = isinstance(first, tuple) and first[0] == 'fld' and first[2] == 'base' and isinstance(first[1], tuple) and first[1][0] == 'fld' \
+                    and first[1][2] in ('*self', 'self') and util.is_param(first[1][1], 1)
+                good = len(w) == 2 and base_ok and w[0][1] == 1 and w[1][1] == 1 and util.is_param(w[1][0], 2)
+        ctx.ok('R09.4', key + '/return', b.where(bi), 'array::map over the inner pose array')
+        ctx.check(good, 'R09.4', key, b.where(bi), b.path, 'element update is not base * pose: %s' % found, detail='poses.map(|pose| base * pose)')
+        return
     ctx.require(not t['dest']['proj'], 'Base::forward_with_joint_poses stores the inner poses in a local')
     ups = _array_local_updates(b, arr)
-    key = 'tool::Base/link-poses'
     # returned value is that array
     ret_defs = b.defs().get(0, [])
     ret_ok = len(ret_defs) == 1 and ret_defs[0][0] == 'st' and ret_defs[0][3]['rv']['k'] == 'use' and \
